@@ -1,8 +1,567 @@
-//! C10: conforming responses for an entrypoint's query and the runtime's normalize / read on them.
-use crate::node::Node;
+//! C10: conforming responses for an entrypoint's query, generated from the QUERY TEXT (what a server
+//! sees) and the schema, and the runtime's own normalize / read run on them (js/ops_runtime.mjs).
+//!
+//! `c10 \t <entrypoint.ts path> \t <seed> \t <shape>`; shapes: `full` (no nulls, lists of 2, concrete
+//! types of abstract fields cycled), `random` (nulls 20 %, lists 0–3), `sparse` (nulls 50 %, lists 0–1,
+//! nullable variables omitted half of the time).
+//!
+//! answer: `<variables wire> \t <response wire> \t norm:<ok|throw:hex> \t out:<ok|missing:hex|throw:hex>
+//!          \t cm:<n>[:hex,hex…] \t <store dump> \t <selected: hex=hex,…|->`
+//! JSON as wire tokens: `o n (hexkey val)*` | `a n val*` | `s hex` | `d text` | `t` | `f` | `z`.
+use crate::node::{files_json, Node};
 use crate::Current;
-use serde_json::Value;
+use hx_common::{hex, Rng};
+use hx_projgen::model::*;
+use serde_json::{json, Map, Value as J};
 
-pub fn c10_answer(_c: &mut Current, _graph: &Value, _rt: &mut Node, _f: &[&str]) -> String {
-    "todo".to_string()
+// ---------------------------------------------------------------------------------------------
+// the operation text as the compiler prints it
+// ---------------------------------------------------------------------------------------------
+
+#[derive(Debug, Clone)]
+pub enum Sel {
+    Field { key: String, name: String, sub: Option<Vec<Sel>> },
+    Frag { ty: String, sub: Vec<Sel> },
+}
+
+#[derive(Debug)]
+pub struct Operation {
+    pub kind: String,
+    pub vars: Vec<(String, TypeRef)>,
+    pub sel: Vec<Sel>,
+}
+
+fn tokenize(text: &str) -> Option<Vec<String>> {
+    let cs: Vec<char> = text.chars().collect();
+    let mut i = 0;
+    let mut out = vec![];
+    while i < cs.len() {
+        let c = cs[i];
+        if c.is_whitespace() || c == ',' {
+            i += 1;
+        } else if c == '.' && cs.get(i + 1) == Some(&'.') && cs.get(i + 2) == Some(&'.') {
+            out.push("...".to_string());
+            i += 3;
+        } else if "{}()[]:$!=".contains(c) {
+            out.push(c.to_string());
+            i += 1;
+        } else if c == '"' {
+            let mut s = String::from("\"");
+            i += 1;
+            while i < cs.len() && cs[i] != '"' {
+                if cs[i] == '\\' {
+                    s.push(cs[i]);
+                    i += 1;
+                }
+                if i < cs.len() {
+                    s.push(cs[i]);
+                }
+                i += 1;
+            }
+            if i >= cs.len() {
+                return None;
+            }
+            i += 1;
+            out.push(s);
+        } else {
+            let mut s = String::new();
+            while i < cs.len() && !(cs[i].is_whitespace() || ",{}()[]:$!=\"".contains(cs[i])) {
+                s.push(cs[i]);
+                i += 1;
+            }
+            out.push(s);
+        }
+    }
+    Some(out)
+}
+
+struct P {
+    t: Vec<String>,
+    i: usize,
+}
+
+impl P {
+    fn peek(&self) -> Option<&str> {
+        self.t.get(self.i).map(|s| s.as_str())
+    }
+    fn next(&mut self) -> Option<String> {
+        let x = self.t.get(self.i).cloned();
+        self.i += 1;
+        x
+    }
+    fn eat(&mut self, s: &str) -> Option<()> {
+        if self.peek() == Some(s) {
+            self.i += 1;
+            Some(())
+        } else {
+            None
+        }
+    }
+    fn skip_balanced(&mut self, open: &str, close: &str) -> Option<()> {
+        // current token is `open`
+        let mut depth = 0;
+        loop {
+            let t = self.next()?;
+            if t == open || t == "{" || t == "[" || (t == "(" && open != "(") {
+                depth += 1;
+            } else if t == close || t == "}" || t == "]" || (t == ")" && close != ")") {
+                depth -= 1;
+                if depth == 0 {
+                    return Some(());
+                }
+            }
+        }
+    }
+    fn ty(&mut self) -> Option<TypeRef> {
+        let base = if self.peek() == Some("[") {
+            self.i += 1;
+            let inner = self.ty()?;
+            self.eat("]")?;
+            inner.list()
+        } else {
+            TypeRef::named(&self.next()?)
+        };
+        if self.peek() == Some("!") {
+            self.i += 1;
+            Some(base.non_null())
+        } else {
+            Some(base)
+        }
+    }
+    fn selset(&mut self) -> Option<Vec<Sel>> {
+        self.eat("{")?;
+        let mut out = vec![];
+        loop {
+            match self.peek()? {
+                "}" => {
+                    self.i += 1;
+                    return Some(out);
+                }
+                "..." => {
+                    self.i += 1;
+                    if self.next()? != "on" {
+                        return None;
+                    }
+                    let ty = self.next()?;
+                    let sub = self.selset()?;
+                    out.push(Sel::Frag { ty, sub });
+                }
+                _ => {
+                    let first = self.next()?;
+                    let (key, name) = if self.peek() == Some(":") {
+                        self.i += 1;
+                        (first, self.next()?)
+                    } else {
+                        (first.clone(), first)
+                    };
+                    if self.peek() == Some("(") {
+                        self.skip_balanced("(", ")")?;
+                    }
+                    let sub = if self.peek() == Some("{") { Some(self.selset()?) } else { None };
+                    out.push(Sel::Field { key, name, sub });
+                }
+            }
+        }
+    }
+}
+
+pub fn parse_operation(text: &str) -> Option<Operation> {
+    let mut p = P { t: tokenize(text)?, i: 0 };
+    let kind = p.next()?;
+    let _name = p.next()?;
+    let mut vars = vec![];
+    if p.peek() == Some("(") {
+        p.i += 1;
+        while p.peek()? != ")" {
+            p.eat("$")?;
+            let n = p.next()?;
+            p.eat(":")?;
+            let t = p.ty()?;
+            if p.peek() == Some("=") {
+                p.i += 1;
+                // a constant: one token, or a balanced bracket group
+                match p.peek()? {
+                    "{" => p.skip_balanced("{", "}")?,
+                    "[" => p.skip_balanced("[", "]")?,
+                    _ => {
+                        p.i += 1;
+                    }
+                }
+            }
+            vars.push((n, t));
+        }
+        p.i += 1;
+    }
+    let sel = p.selset()?;
+    if p.i != p.t.len() {
+        return None;
+    }
+    Some(Operation { kind, vars, sel })
+}
+
+// ---------------------------------------------------------------------------------------------
+// generation
+// ---------------------------------------------------------------------------------------------
+
+#[derive(Clone, Copy, PartialEq)]
+enum Shape {
+    Full,
+    Random,
+    Sparse,
+}
+
+struct Gen<'a> {
+    schema: &'a Schema,
+    r: Rng,
+    shape: Shape,
+    counter: usize,
+    ids: Vec<(String, String)>, // (typename, id) handed out so far
+}
+
+impl<'a> Gen<'a> {
+    fn null_now(&mut self) -> bool {
+        match self.shape {
+            Shape::Full => false,
+            Shape::Random => self.r.below(100) < 20,
+            Shape::Sparse => self.r.below(100) < 50,
+        }
+    }
+    fn list_len(&mut self) -> usize {
+        match self.shape {
+            Shape::Full => 2,
+            Shape::Random => self.r.below(4),
+            Shape::Sparse => self.r.below(2),
+        }
+    }
+    fn fresh(&mut self) -> usize {
+        self.counter += 1;
+        self.counter
+    }
+
+    fn applies(&self, concrete: &str, frag: &str) -> bool {
+        if concrete == frag {
+            return true;
+        }
+        match self.schema.get(frag).map(|t| &t.kind) {
+            Some(TypeKind::Union { members }) => members.iter().any(|m| m == concrete),
+            Some(TypeKind::Interface { .. }) => match self.schema.get(concrete).map(|t| &t.kind) {
+                Some(TypeKind::Object { implements, .. }) => implements.iter().any(|i| i == frag),
+                _ => false,
+            },
+            _ => false,
+        }
+    }
+
+    /// CollectFields: (response key, field name, merged sub-selections) in order of first appearance
+    fn collect(&self, concrete: &str, sels: &[Sel], out: &mut Vec<(String, String, Option<Vec<Sel>>)>) {
+        for s in sels {
+            match s {
+                Sel::Field { key, name, sub } => {
+                    if let Some(e) = out.iter_mut().find(|e| &e.0 == key) {
+                        if let (Some(a), Some(b)) = (e.2.as_mut(), sub.as_ref()) {
+                            a.extend(b.iter().cloned());
+                        }
+                    } else {
+                        out.push((key.clone(), name.clone(), sub.clone()));
+                    }
+                }
+                Sel::Frag { ty, sub } => {
+                    if self.applies(concrete, ty) {
+                        self.collect(concrete, sub, out);
+                    }
+                }
+            }
+        }
+    }
+
+    fn scalar(&mut self, name: &str) -> J {
+        let k = self.fresh();
+        match name {
+            "String" => json!(format!("s{k}")),
+            "ID" => json!(format!("i{k}")),
+            "Int" => json!(k as i64),
+            "Float" => json!(k as f64 + 0.5),
+            "Boolean" => json!(k % 2 == 0),
+            _ => match self.schema.get(name).map(|t| &t.kind) {
+                Some(TypeKind::Enum { values }) if !values.is_empty() => json!(values[k % values.len()].clone()),
+                _ => json!(format!("c{k}")),
+            },
+        }
+    }
+
+    fn object(&mut self, type_name: &str, sels: &[Sel], depth: usize) -> J {
+        // resolve an abstract type to one of its concrete types
+        let concrete: String = match self.schema.get(type_name) {
+            Some(t) if t.is_abstract() => {
+                let mut subs = self.schema.concrete_subtypes(type_name);
+                // A selection without a direct `__typename` is one of the compiler's own wrappers
+                // (`node(id: $id) { ... on T { … } }`): the id that is passed is the id of a T, so
+                // the server answers with a T.
+                let direct_typename = sels.iter().any(|s| matches!(s, Sel::Field { name, .. } if name == "__typename"));
+                if !direct_typename {
+                    let frag_types: Vec<String> = sels
+                        .iter()
+                        .filter_map(|s| match s {
+                            Sel::Frag { ty, .. } => Some(ty.clone()),
+                            _ => None,
+                        })
+                        .collect();
+                    let narrowed: Vec<String> =
+                        subs.iter().filter(|c| frag_types.iter().any(|f| self.applies(c, f))).cloned().collect();
+                    if !narrowed.is_empty() {
+                        subs = narrowed;
+                    }
+                }
+                if subs.is_empty() {
+                    return J::Null;
+                }
+                let k = if self.shape == Shape::Full { self.fresh() } else { self.r.below(1000) };
+                subs[k % subs.len()].clone()
+            }
+            _ => type_name.to_string(),
+        };
+        let mut fields = vec![];
+        self.collect(&concrete, sels, &mut fields);
+        let tdef = self.schema.get(&concrete);
+        // identity: a fresh id, sometimes (random shapes) one that was already handed out for this type
+        let id: String = {
+            let reuse: Vec<String> = self.ids.iter().filter(|(t, _)| *t == concrete).map(|(_, i)| i.clone()).collect();
+            if self.shape == Shape::Random && !reuse.is_empty() && self.r.below(100) < 12 {
+                reuse[self.r.below(reuse.len())].clone()
+            } else {
+                let k = self.fresh();
+                format!("{concrete}_{k}")
+            }
+        };
+        let mut obj = Map::new();
+        for (key, name, sub) in fields {
+            let v = if name == "__typename" {
+                json!(concrete.clone())
+            } else {
+                let fdef = tdef.and_then(|t| t.field(&name)).cloned();
+                match fdef {
+                    None => J::Null, // not a field of this type: the query is invalid; give nothing
+                    Some(fd) => {
+                        if name == "id" && fd.ty.inner() == "ID" && !fd.ty.is_list() {
+                            self.ids.push((concrete.clone(), id.clone()));
+                            json!(id.clone())
+                        } else {
+                            self.value(&fd.ty, sub.as_deref(), depth)
+                        }
+                    }
+                }
+            };
+            obj.insert(key, v);
+        }
+        J::Object(obj)
+    }
+
+    fn value(&mut self, ty: &TypeRef, sub: Option<&[Sel]>, depth: usize) -> J {
+        match ty {
+            TypeRef::NonNull(inner) => self.value_nn(inner, sub, depth),
+            _ => {
+                if self.null_now() {
+                    J::Null
+                } else {
+                    self.value_nn(ty, sub, depth)
+                }
+            }
+        }
+    }
+
+    fn value_nn(&mut self, ty: &TypeRef, sub: Option<&[Sel]>, depth: usize) -> J {
+        match ty {
+            TypeRef::NonNull(inner) => self.value_nn(inner, sub, depth),
+            TypeRef::List(item) => {
+                let n = self.list_len();
+                J::Array((0..n).map(|_| self.value(item, sub, depth)).collect())
+            }
+            TypeRef::Named(n) => match sub {
+                Some(s) if self.schema.is_composite(n) => {
+                    if depth > 12 {
+                        J::Null
+                    } else {
+                        self.object(n, s, depth + 1)
+                    }
+                }
+                _ => self.scalar(n),
+            },
+        }
+    }
+
+    fn input(&mut self, ty: &TypeRef, depth: usize) -> J {
+        match ty {
+            TypeRef::NonNull(inner) => self.input(inner, depth),
+            TypeRef::List(item) => {
+                let n = 1 + self.r.below(2);
+                J::Array((0..n).map(|_| self.input(item, depth)).collect())
+            }
+            TypeRef::Named(n) => match self.schema.get(n).map(|t| &t.kind) {
+                Some(TypeKind::Input { fields }) => {
+                    let mut m = Map::new();
+                    if depth < 4 {
+                        for f in fields {
+                            if f.ty.is_non_null() || self.r.below(100) < 60 {
+                                m.insert(f.name.clone(), self.input(&f.ty, depth + 1));
+                            }
+                        }
+                    }
+                    J::Object(m)
+                }
+                _ => self.scalar(n),
+            },
+        }
+    }
+}
+
+// ---------------------------------------------------------------------------------------------
+// wire
+// ---------------------------------------------------------------------------------------------
+
+pub fn json_wire(v: &J, out: &mut Vec<String>) {
+    match v {
+        J::Null => out.push("z".into()),
+        J::Bool(true) => out.push("t".into()),
+        J::Bool(false) => out.push("f".into()),
+        J::Number(n) => {
+            out.push("d".into());
+            // JavaScript prints 3.0 as 3; the generator only makes integers and x.5
+            let s = n.to_string();
+            out.push(s.strip_suffix(".0").unwrap_or(&s).to_string());
+        }
+        J::String(s) => {
+            out.push("s".into());
+            out.push(hex(s.as_bytes()));
+        }
+        J::Array(a) => {
+            out.push("a".into());
+            out.push(a.len().to_string());
+            for x in a {
+                json_wire(x, out);
+            }
+        }
+        J::Object(m) => {
+            out.push("o".into());
+            out.push(m.len().to_string());
+            for (k, x) in m {
+                out.push(hex(k.as_bytes()));
+                json_wire(x, out);
+            }
+        }
+    }
+}
+
+fn wire(v: &J) -> String {
+    let mut out = vec![];
+    json_wire(v, &mut out);
+    out.join(" ")
+}
+
+fn hx(s: &str) -> String {
+    hex(s.as_bytes())
+}
+
+pub fn c10_answer(c: &mut Current, values: &J, rt: &mut Node, f: &[&str]) -> String {
+    let (Some(entry), Some(seed), Some(shape)) = (f.get(1), f.get(2).and_then(|s| s.parse::<u64>().ok()), f.get(3)) else {
+        return "bad-request".to_string();
+    };
+    let Some(project) = c.project.as_ref() else { return "noschema".to_string() };
+    let dir = entry.strip_suffix("/entrypoint.ts").unwrap_or(entry);
+    let text_path = format!("{dir}/query_text.ts");
+    let Some(text) = values["values"][&text_path]["ok"].as_str() else { return "noquerytext".to_string() };
+    let Some(op) = parse_operation(text) else { return "unparsed-query".to_string() };
+    let root = match op.kind.as_str() {
+        "query" => "Query",
+        "mutation" => "Mutation",
+        "subscription" => "Subscription",
+        _ => return "unparsed-query".to_string(),
+    };
+    let shape = match *shape {
+        "full" => Shape::Full,
+        "sparse" => Shape::Sparse,
+        _ => Shape::Random,
+    };
+    let mut g = Gen { schema: &project.schema, r: Rng::new(seed, 77), shape, counter: 0, ids: vec![] };
+    let mut vars = Map::new();
+    for (n, t) in &op.vars {
+        if t.is_nullable() && shape == Shape::Sparse && g.r.below(2) == 0 {
+            continue;
+        }
+        if t.is_nullable() && shape == Shape::Random && g.r.below(5) == 0 {
+            vars.insert(n.clone(), J::Null);
+            continue;
+        }
+        let v = g.input(t, 0);
+        vars.insert(n.clone(), v);
+    }
+    let response = g.object(root, &op.sel, 0);
+    let mut pointers = Map::new();
+    for (t, fld, to) in &c.pointers {
+        let types: Vec<String> = match project.schema.get(to) {
+            Some(td) if td.is_abstract() => project.schema.concrete_subtypes(to),
+            _ => vec![to.clone()],
+        };
+        pointers.insert(format!("{t}/{fld}/resolver_reader.ts"), json!(types));
+    }
+    // where the read starts: the root record for an entrypoint of a root type; for the entrypoint the
+    // compiler generates for a loadable field of another type (`node(id: $id) { ... on T { … } }`) the
+    // record of the object that was fetched (read.ts passes the link the field was selected on)
+    let entry_type = entry.split('/').next().unwrap_or("");
+    let root: Option<(String, String)> = if ["Query", "Mutation", "Subscription"].contains(&entry_type) {
+        None
+    } else {
+        let obj = response.as_object().and_then(|m| if m.len() == 1 { m.values().next() } else { None });
+        match obj.and_then(|o| Some((o.get("__typename")?.as_str()?.to_string(), o.get("id")?.as_str()?.to_string()))) {
+            Some((t, id)) => {
+                if op.vars.iter().any(|(n, _)| n == "id") {
+                    vars.insert("id".to_string(), json!(id.clone()));
+                }
+                Some((t, id))
+            }
+            None => return format!("{}\t{}\tnoroot", wire(&J::Object(vars)), wire(&response)),
+        }
+    };
+    let vars = J::Object(vars);
+    let root_field = match &root {
+        Some((t, id)) => format!("root:{}:{}", hx(t), hx(id)),
+        None => "root:-".to_string(),
+    };
+    let ans = rt.call(&json!({
+        "op": "read", "files": files_json(&c.outcome.artifacts), "entry": entry,
+        "variables": vars, "response": response, "pointers": J::Object(pointers),
+        "root": root.as_ref().map(|(t, id)| json!({"__typename": t, "__link": id})),
+    }));
+    if let Some(e) = ans["err"].as_str() {
+        return format!("{}\t{}\t{}\trt-error:{}", wire(&vars), wire(&response), root_field, hx(e));
+    }
+    let norm = match ans["normalize"].as_str().unwrap_or("?") {
+        "ok" => "norm:ok".to_string(),
+        other => format!("norm:throw:{}", hx(other.strip_prefix("throw:").unwrap_or(other))),
+    };
+    let out = match ans["outcome"].as_str().unwrap_or("?") {
+        "ok" => "out:ok".to_string(),
+        "missing" => format!("out:missing:{}", hx(ans["reason"].as_str().unwrap_or(""))),
+        other => format!("out:throw:{}", hx(other.strip_prefix("throw:").unwrap_or(other))),
+    };
+    let cm: Vec<String> = ans["componentMissing"].as_array().map(|a| a.iter().map(|x| hx(x.as_str().unwrap_or(""))).collect()).unwrap_or_default();
+    let cm = if cm.is_empty() { "cm:0".to_string() } else { format!("cm:{}:{}", cm.len(), cm.join(",")) };
+    let store = ans["store"].as_str().unwrap_or("").to_string();
+    let selected: Vec<String> = ans["selected"]
+        .as_array()
+        .map(|a| a.iter().map(|x| format!("{}={}", hx(x[0].as_str().unwrap_or("")), hx(x[1].as_str().unwrap_or("")))).collect())
+        .unwrap_or_default();
+    if norm != "norm:ok" {
+        return format!("{}\t{}\t{}\t{}", wire(&vars), wire(&response), root_field, norm);
+    }
+    format!(
+        "{}\t{}\t{}\t{}\t{}\t{}\t{}\t{}",
+        wire(&vars),
+        wire(&response),
+        root_field,
+        norm,
+        out,
+        cm,
+        if store.is_empty() { "-".to_string() } else { store },
+        if selected.is_empty() { "-".to_string() } else { selected.join(",") }
+    )
 }
